@@ -265,7 +265,8 @@ common::register! {
     q_sli_3 = sli::<_, 3, 40> => 5,
     q_rpsi = rpsi::<_, 8, 40> => 2,
     q_nack_1 = nack::<_, 1, 32> => 3,
-    q_nack_unit_5 = nack_unit::<_, 5> => 7,
+    q_nack_unit_4 = nack_unit::<_, 4> => 6,
+    t_nack_unit_5 = nack_unit::<_, 5> => 7,
     t_sli_0 = sli::<_, 0, 28> => 2,
     t_sli_2 = sli::<_, 2, 36> => 4,
     t_rpsi_long = rpsi::<_, 64, 96> => 2,
@@ -277,7 +278,7 @@ common::register! {
 
 common::register_hashmap! {
     q_fir_1 = fir::<_, true> => 5,
-    q_fir_fixed = fir::<_, false> => 6,
+    t_fir_fixed = fir::<_, false> => 6,
 }
 
 #[cfg(not(kani))]
